@@ -50,6 +50,9 @@ def scenarios(prop, tier, seed=0):
                    oracles=BASE + ('quiescent_complete',)))
         L.append(S('c03_p1_desync_try', [T('A', ('desync', 0)), T('B', ('try_sync', 0))], pool_max=1, R=3, B=14,
                    oracles=BASE + ('quiescent_complete',)))
+        # schedule [stale entry of q1, q2] when the only pool thread frees up: B's sync drains q1 itself (its schedule entry stays behind), then q2 is queued
+        L.append(S('c03_p1_stale_entry_r2', [T('A', ('desync', 0, GATE)), T('B', ('desync', 1), ('sync', 1), ('desync', 2), ('open_gate', 0))], pool_max=1, queues=3, R=2, B=34,
+                   order=[0, 2, 1], oracles=BASE + ('deadlock', 'quiescent_complete')))
         if not q: L.append(S('c03_p1_stale_entry', [T('A', ('desync', 0, GATE)), T('B', ('desync', 1), ('sync', 1), ('desync', 2)), T('W', ('open_gate', 0))], pool_max=1, queues=3, R=3, B=16,
                    oracles=BASE + ('quiescent_complete',)))
         if not q:
@@ -77,7 +80,7 @@ def scenarios(prop, tier, seed=0):
         L.append(S('c01_p1_desync_sync', [T('A', ('desync', 0)), T('B', ('sync', 0))], pool_max=1, R=3, B=14, oracles=BASE))
         L.append(S('c01_p1_desync_try', [T('A', ('desync', 0)), T('B', ('try_sync', 0))], pool_max=1, R=3, B=14, oracles=BASE))
         L.append(S('c01_p0_sync_sync_try', [T('A', ('sync', 0)), T('B', ('sync', 0)), T('C', ('try_sync', 0))], pool_max=0, R=3, B=14, oracles=BASE))
-        if not q: L.append(S('c01_p0_fut_sync_sync', [T('A', ('future_desync', 0, {'fut': ('gate', 0), 'as': 'f'}), ('detach', 'f'), ('sync', 0)), T('B', ('sync', 0)), T('W', ('open_gate', 0))], pool_max=0, R=3, B=16, oracles=BASE))
+        L.append(S('c01_p0_fut_sync_sync', [T('A', ('future_desync', 0, {'fut': ('gate', 0), 'as': 'f'}), ('detach', 'f'), ('sync', 0)), T('B', ('sync', 0)), T('W', ('open_gate', 0))], pool_max=0, R=(2 if q else 3), B=(20 if q else 16), oracles=BASE))
         if not q:
             L.append(S('c01_p1_desync_sync_try', [T('A', ('desync', 0)), T('B', ('sync', 0)), T('C', ('try_sync', 0))], pool_max=1, R=3, B=14, oracles=BASE))
             L.append(S('c01_p1_desync2_sync', [T('A', ('desync', 0), ('desync', 0)), T('B', ('sync', 0))], pool_max=1, R=3, B=16, oracles=BASE))
@@ -134,6 +137,8 @@ def scenarios(prop, tier, seed=0):
         if not q:
             L.append(S('c13_p1_desync_suspend_resume', [T('A', ('desync', 0), ('suspend', 0, {'as': 's'}), ('desync', 0), ('block_on', 's'), ('resume', 's', 'resume'))],
                        pool_max=1, R=3, B=18, oracles=BASE + ('deadlock', 'suspend', 'quiescent_complete')))
+            pass
+        if True:
             L.append(S('c13_p0_suspend_resume_sync', [T('A', ('suspend', 0, {'as': 's'}), ('block_on', 's'), ('resume', 's', 'resume'), ('sync', 0))], pool_max=0, R=2, B=26,
                        oracles=BASE + ('deadlock', 'suspend', 'results')))
     elif prop == 'C08':
@@ -146,11 +151,14 @@ def scenarios(prop, tier, seed=0):
                    oracles=BASE + ('deadlock', 'cancelled_clean', 'quiescent_complete')))
         L.append(S('c08_p1_drop_midway', [T('A', ('future_sync', 0, {'fut': ('gate', 0), 'as': 'f'}), ('poll', 'f'), ('poll', 'f'), ('drop_fut', 'f'), ('desync', 0))], pool_max=1, R=(2 if q else 3), B=22,
                    oracles=BASE + ('deadlock', 'cancelled_clean', 'quiescent_complete')))
+        # a later operation is already queued when the operation is dropped midway: it must not start before the operation's future is destroyed
+        L.append(S('c08_p1_drop_midway_queued', [T('A', ('future_sync', 0, {'fut': ('gate', 0), 'as': 'f'}), ('poll', 'f'), ('poll', 'f'), ('desync', 0), ('drop_fut', 'f'))], pool_max=1, R=2, B=24,
+                   oracles=BASE + ('deadlock', 'cancelled_clean', 'quiescent_complete')))
     elif prop == 'C05':
         MEM = BASE + ('memory', 'drop_waits', 'deadlock')
         L.append(S('c05_p1_desync_drop', [T('A', ('d_new', 'd'), ('d_desync', 'd'), ('d_drop', 'd'))], pool_max=1, queues=0, R=3, B=16, oracles=MEM))
         L.append(S('c05_p1_fut_drop', [T('A', ('d_new', 'd'), ('d_future_desync', 'd', {'fut': ('gate', 0), 'as': 'f'}), ('detach', 'f'), ('d_drop', 'd')), T('W', ('open_gate', 0))],
-                   pool_max=1, queues=0, R=(2 if q else 3), B=18, oracles=MEM))
+                   pool_max=1, queues=0, R=(2 if q else 3), B=18, order=([0, 2, 1] if q else None), oracles=MEM))
         L.append(S('c05_p1_drop_elsewhere', [T('A', ('d_new', 'd'), ('d_desync', 'd'), ('d_give', 'd', 0)), T('B', ('d_take', 0, 'd'), ('d_drop', 'd'))],
                    pool_max=1, queues=0, R=3, B=16, oracles=MEM))
         if not q:
@@ -192,13 +200,34 @@ def scenarios(prop, tier, seed=0):
             L.append(S15('c15_p1_pool_panic_desync', [T('A', ('desync', 0, PAN)), T('Y', ('desync', 1), ('sync', 1), after=['A', 'P0']),
                                                       T('Z', ('desync', 0, {'must_panic': True}), final=True, after=['A', 'P0', 'Y'])],
                          ['pool', 'Z'], pool_max=1, pool_slots=2, queues=2, R=3, B=16))
-            # a queued second job on the panicked object is never run; sync on it fails
-            L.append(S15('c15_p1_pool_panic_queued', [T('A', ('desync', 0, PAN), ('desync', 0, {'must_panic': True})), T('Y', ('desync', 1), after=['A', 'P0']),
-                                                      T('Z', ('sync', 0, {'must_panic': True}), final=True, after=['A', 'P0', 'Y'])],
-                         ['pool', 'Z'], pool_max=1, pool_slots=2, queues=2, R=3, B=16))
             L.append(S15('c15_p2_pool_panic', [T('A', ('desync', 0, PAN)), T('B', ('desync', 1)), T('Y', ('desync', 2), after=['A', 'B', 'P0']),
                                                T('Z', ('try_sync', 0, {'must_panic': True}), final=True, after=['A', 'B', 'P0', 'Y'])],
                          ['pool', 'Z'], pool_max=2, pool_slots=3, queues=3, R=3, B=14))
+    elif prop == 'C11':
+        OR11 = BASE + ('pipe_in', 'deadlock', 'memory')
+        # gated items, pool of one; the producer thread W opens the gates (item arrival + wake-up) at solver-chosen points
+        L.append(S('c11_p1_one_item', [T('A', ('p_new', 'x'), ('pipe_in', 'x', {'gates': [0], 'ends': True})), T('W', ('open_gate', 0))],
+                   pool_max=1, queues=0, R=2, B=30, oracles=OR11))
+        L.append(S('c11_p1_drop_then_event', [T('A', ('p_new', 'x'), ('pipe_in', 'x', {'gates': [0], 'ends': False}), ('p_drop', 'x')), T('W', ('open_gate', 0))],
+                   pool_max=1, queues=0, R=2, B=40, oracles=OR11))
+        if not q:
+            L.append(S('c11_p1_two_items', [T('A', ('p_new', 'x'), ('pipe_in', 'x', {'gates': [0, 1], 'ends': True})), T('W', ('open_gate', 0), ('open_gate', 1))],
+                       pool_max=1, queues=0, R=2, B=34, oracles=OR11))
+            L.append(S('c11_p1_item_and_sync', [T('A', ('p_new', 'x'), ('pipe_in', 'x', {'gates': [99, 0], 'ends': False}), ('d_sync', 'x')), T('W', ('open_gate', 0))],
+                       pool_max=1, queues=0, R=2, B=40, oracles=OR11))
+    elif prop == 'C12':
+        OR12 = BASE + ('pipe_out', 'deadlock', 'memory')
+        # one input item that is ready at once, then the end of the input: the consumer (hand-polled task on the caller's thread) races the producing job
+        L.append(S('c12_p1_ready_item', [T('A', ('p_new', 'x'), ('pipe', 'x', {'gates': [99], 'ends': True, 'as': 'ps'}), ('s_next', 'ps'), ('s_next', 'ps'))],
+                   pool_max=1, queues=0, R=2, B=34, oracles=OR12))
+        if not q:
+            L.append(S('c12_p1_one_item', [T('A', ('p_new', 'x'), ('pipe', 'x', {'gates': [0], 'ends': True, 'as': 'ps'}), ('s_next', 'ps'), ('s_next', 'ps')), T('W', ('open_gate', 0))],
+                       pool_max=1, queues=0, R=2, B=34, oracles=OR12))
+    elif prop == 'C16':
+        OR16 = BASE + ('pipe_closed', 'deadlock', 'memory')
+        # the input yields one item and then stays silent; the caller drops its own reference and then the output stream
+        L.append(S('c16_p1_drop_output', [T('A', ('p_new', 'x'), ('pipe', 'x', {'gates': [99], 'ends': False, 'as': 'ps'}), ('p_drop', 'x'), ('s_drop', 'ps'))],
+                   pool_max=1, queues=0, R=2, B=40, oracles=OR16))
     return L
 
 def bounds_text(prop, tier):
